@@ -8,6 +8,7 @@ import (
 	"fmt"
 	"net"
 	"net/http"
+	"net/url"
 	"strings"
 	"time"
 
@@ -215,7 +216,8 @@ func clientTunnelHTTPRequestTarget(u *base.URL) string {
 		return "/"
 	}
 
-	ret := u.Path
+	// use the escaped form of the path, since it is written in a HTTP request line
+	ret := (*url.URL)(u).EscapedPath()
 	if ret == "" {
 		ret = "/"
 	}
